@@ -1002,12 +1002,14 @@ Inv_C14_SliceContent ==
 
 IsTmActor(a) == a \in {"tm", "ctm"}
 C18Ev == lw.valid /\ W.ev = "C18Check"
-SrcA == "ConfigMap/ns1/src-a"
+\* class secretSrc: the required source is a Secret (a kind the template's own target watch does not cover), and a
+\* neighbour template t0 already watches that kind
+SrcA == IF scen.row >= 0 /\ "class" \in DOMAIN scen /\ scen.class = "secretSrc" THEN "Secret/ns1/src-a" ELSE "ConfigMap/ns1/src-a"
 SrcB == "ConfigMap/ns1/src-b"
 OutK == "ConfigMap/ns1/out"
 Has(k) == k \in Keys /\ store[k].exists
 Field(k, f) == IF Has(k) /\ f \in DOMAIN store[k].data THEN store[k].data[f] ELSE "<none>"
-Renderable(c) == c \in {"ok", "ok2", "optionalFirst"}
+Renderable(c) == c \in {"ok", "ok2", "optionalFirst", "secretSrc"}
 
 \* at quiescence the produced object equals the template rendered with the CURRENT values of its sources
 Inv_C18_OutputIsRender ==
@@ -1021,7 +1023,9 @@ Inv_C18_OutputIsRender ==
 
 \* a missing required source, an unparsable template, a source or target outside the template's namespace:
 \* the target is not written in that pass and the pass reports Invalid=True
+\* (the neighbour template t0 of some scenarios is not the object under test)
 TmEnd == lw.valid /\ W.ev = "PassEnd" /\ IsTmActor(W.actor) /\ pass[W.actor].hasSnap /\ ~pass[W.actor].snap.deleting
+         /\ pass[W.actor].target = "ObjectTemplate/ns1/t1"
 TM == pass[W.actor]
 TmBlocked == scen.row >= 0 /\ "class" \in DOMAIN scen
              /\ (scen.class \in {"bad", "targetOtherNS", "sourceOtherNS"} \/ SrcA \in TM.nf)
